@@ -5,7 +5,8 @@
 (*   pixel rows), ImageDescription.flip_parity (no data), ensure_negative_parity of both.             *)
 (*                                                                                                    *)
 (* Everything is an exact integer.  A case is [kind, w, h, cdelt, pc, p] with                         *)
-(*   kind  "image" (pixel data) or "desc" (data-less description)                                     *)
+(*   kind  "image" (array-backed pixel data), "pil" (PIL-backed bitmap: asarray() fills a cache on     *)
+(*         first use - any earlier asarray()/dtype call is the Touch action) or "desc" (data-less)    *)
 (*   cdelt <<CDELT1, CDELT2>>, pc <<PC1_1, PC1_2, PC2_1, PC2_2>>  (the header form the code reads)    *)
 (*   p     <<2*CRPIX1, 2*CRPIX2>>  (doubled, so that half-pixel reference points are representable;   *)
 (*         FITS pixel coordinates are 1-based: the centre of array element [y][x] is (x+1, y+1)).     *)
@@ -35,15 +36,27 @@ World(cd, p, x, y) ==
     IN <<cd[1] * u + cd[2] * v, cd[3] * u + cd[4] * v>>
 
 \* ------------------------------------------------------------------ the operations
+\* An object stores  rows : the array representation (<<>> = none / cache not filled)
+\*                   pil  : the PIL representation   (<<>> = none)
+\* each a sequence: entry i = which original row is stored as row i-1.
 Reverse(s) == [i \in 1..Len(s) |-> s[Len(s) + 1 - i]]
-\* _flip_wcs_parity(wcs, image_height) + the row reversal of Image.flip_parity
+AsArray(o) == IF o.rows # <<>> THEN o.rows ELSE o.pil           \* Image.asarray(): the cache, else converted from PIL
+AsPil(o) == IF o.pil # <<>> THEN o.pil ELSE o.rows              \* Image.aspil(): the PIL object, else converted
+\* what a client can see: the WCS and the two views
+View(o) == [cd |-> o.cd, p |-> o.p, arr |-> AsArray(o), pil |-> AsPil(o)]
+\* _flip_wcs_parity(wcs, image_height) + the row reversal of Image.flip_parity (which reads through asarray(),
+\* so it fills the cache; the PIL representation, when there is one, has to follow)
 FlipWcs(cd, p, h) == [cd |-> <<cd[1], 0 - cd[2], cd[3], 0 - cd[4]>>, p |-> <<p[1], 2 * (h + 1) - p[2]>>]
-Flip(o, h) == LET f == FlipWcs(o.cd, o.p, h) IN [cd |-> f.cd, p |-> f.p, rows |-> Reverse(o.rows)]
+Flip(o, h) == LET f == FlipWcs(o.cd, o.p, h) IN
+              [cd |-> f.cd, p |-> f.p, rows |-> Reverse(AsArray(o)), pil |-> Reverse(o.pil)]
 Ensure(o, h) == IF Sign(o.cd) = 1 THEN Flip(o, h) ELSE o
+\* any call that goes through asarray() before the flip: asarray(), dtype, ...
+Touched(o) == [o EXCEPT !.rows = AsArray(o)]
 
-\* rows[i] = which original row is stored as array row i-1 (empty for a data-less description)
-Start(c) == [cd |-> CDof(c.cdelt, c.pc), p |-> c.p,
-             rows |-> IF c.kind = "image" THEN [i \in 1..c.h |-> i - 1] ELSE <<>>]
+Start(c) == LET id == [i \in 1..c.h |-> i - 1] IN
+            [cd |-> CDof(c.cdelt, c.pc), p |-> c.p,
+             rows |-> IF c.kind = "image" THEN id ELSE <<>>,
+             pil |-> IF c.kind = "pil" THEN id ELSE <<>>]
 
 Cases == {[kind |-> k, w |-> w, h |-> h, cdelt |-> hd[1], pc |-> hd[2], p |-> <<rx, ry[1] + ry[2] * h>>] :
               k \in Kinds, w \in Widths, h \in Heights, hd \in Headers, rx \in RefX, ry \in RefY}
@@ -51,9 +64,11 @@ Cases == {[kind |-> k, w |-> w, h |-> h, cdelt |-> hd[1], pc |-> hd[2], p |-> <<
 Init == orig \in Cases /\ cur = Start(orig)
 FlipParity == cur' = Flip(cur, orig.h) /\ UNCHANGED orig
 EnsureNegativeParity == cur' = Ensure(cur, orig.h) /\ UNCHANGED orig
-Next == FlipParity \/ EnsureNegativeParity
+Touch == orig.kind = "pil" /\ cur' = Touched(cur) /\ UNCHANGED orig
+Next == FlipParity \/ EnsureNegativeParity \/ Touch
 Spec == Init /\ [][Next]_vars
 
+HasData == orig.kind # "desc"
 Pixels(c) == (0..(c.w - 1)) \X (0..(c.h - 1))
 \* a ring around the image too: the reference pixel may be outside, and off-image positions must not move either
 PixelsAndRing(c) == ((0 - 1)..c.w) \X ((0 - 1)..c.h)
@@ -63,30 +78,38 @@ PixelsAndRing(c) == ((0 - 1)..c.w) \X ((0 - 1)..c.h)
 \* rows[y+1] and still has that row's sky position (for a description: the original or its mirror image)
 SkyUnchanged ==
     LET o == Start(orig) IN
-    IF orig.kind = "image"
-    THEN \A q \in Pixels(orig) : World(cur.cd, cur.p, q[1], q[2]) = World(o.cd, o.p, q[1], cur.rows[q[2] + 1])
+    IF HasData
+    THEN \A q \in Pixels(orig) : World(cur.cd, cur.p, q[1], q[2]) = World(o.cd, o.p, q[1], AsArray(cur)[q[2] + 1])
     ELSE \/ cur = o
          \/ \A q \in PixelsAndRing(orig) : World(cur.cd, cur.p, q[1], q[2]) = World(o.cd, o.p, q[1], orig.h - 1 - q[2])
 \* the picture (pixel value, sky position) as a set is the same as at the start
 SamePicture ==
-    orig.kind = "image" =>
+    HasData =>
         LET o == Start(orig) IN
-        {<<cur.rows[q[2] + 1] * orig.w + q[1], World(cur.cd, cur.p, q[1], q[2])>> : q \in Pixels(orig)}
+        {<<AsArray(cur)[q[2] + 1] * orig.w + q[1], World(cur.cd, cur.p, q[1], q[2])>> : q \in Pixels(orig)}
           = {<<q[2] * orig.w + q[1], World(o.cd, o.p, q[1], q[2])>> : q \in Pixels(orig)}
+\* the two views of the pixel data never disagree, whatever was called in whatever order
+ViewsAgree == AsArray(cur) = AsPil(cur)
 \* the reported sign is tied to the orientation of the stored rows
 SignTracksRows ==
     LET o == Start(orig) IN
     /\ Sign(cur.cd) \in {-1, 1}
-    /\ (cur = o) => Sign(cur.cd) = Sign(o.cd)
-    /\ (cur # o) => Sign(cur.cd) = 0 - Sign(o.cd)
+    /\ (View(cur) = View(o)) => Sign(cur.cd) = Sign(o.cd)
+    /\ (View(cur) # View(o)) => Sign(cur.cd) = 0 - Sign(o.cd)
+\* filling the array cache is invisible: now, and after any later flip / ensure
+TouchInvisible ==
+    [][Touch =>
+        /\ View(cur') = View(cur)
+        /\ View(Flip(cur', orig.h)) = View(Flip(cur, orig.h))
+        /\ View(Ensure(cur', orig.h)) = View(Ensure(cur, orig.h)) ]_vars
 \* "after a parity flip the sign is negated, the rows are reversed, world(x, y) before = world(x, h-1-y) after"
 FlipOK ==
     [][FlipParity =>
         /\ Sign(cur'.cd) = 0 - Sign(cur.cd)
         /\ Det(cur'.cd) = 0 - Det(cur.cd)
-        /\ cur'.rows = Reverse(cur.rows)
+        /\ AsArray(cur') = Reverse(AsArray(cur)) /\ AsPil(cur') = Reverse(AsPil(cur))
         /\ \A q \in PixelsAndRing(orig) : World(cur.cd, cur.p, q[1], q[2]) = World(cur'.cd, cur'.p, q[1], orig.h - 1 - q[2])
-        /\ Flip(cur', orig.h) = cur ]_vars
+        /\ View(Flip(cur', orig.h)) = View(cur) ]_vars
 \* "ensuring negative parity is idempotent and always yields parity -1"
 EnsureOK ==
     [][EnsureNegativeParity =>
@@ -98,7 +121,7 @@ WellFormed == Det(Start(orig).cd) # 0 /\ Det(cur.cd) # 0
 
 \* ------------------------------------------------------------------ what the harness gets for every state
 WorldTable(o, c) == [y \in 1..c.h |-> [x \in 1..c.w |-> World(o.cd, o.p, x - 1, y - 1)]]
-Snapshot(o) == [cd |-> o.cd, p |-> o.p, rows |-> o.rows, sign |-> Sign(o.cd), det |-> Det(o.cd)]
+Snapshot(o) == [cd |-> o.cd, p |-> o.p, rows |-> AsArray(o), pil |-> AsPil(o), sign |-> Sign(o.cd), det |-> Det(o.cd)]
 Report == LET f == Flip(cur, orig.h)  e == Ensure(cur, orig.h) IN
           [orig |-> orig, start |-> Snapshot(cur), world |-> WorldTable(cur, orig),
            flip |-> Snapshot(f), wflip |-> WorldTable(f, orig), flip2 |-> Snapshot(Flip(f, orig.h)),
